@@ -230,9 +230,18 @@ def fresh(fi, cc=True):
 
 
 def ref_snapshot(fi, cc):
+    """Answers of a freshly parsed instance. They are computed in a pristine forked process of their own (see run())
+    and inherited by the history processes, so that whatever a history leaves behind in the process cannot leak into
+    the reference it is compared with."""
     if (fi, cc) not in _REF:
-        _REF[(fi, cc)] = snapshot(fresh(fi, cc), FILES[fi][3])
+        from mc.core import run_forked
+        _REF[(fi, cc)] = run_forked(_compute_ref, (fi, cc))
     return _REF[(fi, cc)]
+
+
+def _compute_ref(args):
+    fi, cc = args
+    return snapshot(fresh(fi, cc), FILES[fi][3])
 
 
 def make_run_history(fi):
@@ -263,6 +272,9 @@ def make_run_history(fi):
                 if type(e).__name__ != "DecayNotFound":
                     fails.append((f"query-exception:{type(e).__name__}@{name}", f"{op} raised {e!r} after {hist[:step]}"))
                     break
+            if not (step == n - 1 or check_all):
+                # asking every query is itself part of the history (queries may leave state behind)
+                snapshot(p, stable)
             if step == n - 1 or check_all:
                 snap = snapshot(p, stable)
                 if snap != ref_snapshot(fi, cc):
@@ -304,6 +316,8 @@ def exec_case(kind, payload):
     if kind == "ast":
         return check_ast(payload["ast"])
     if kind == "history":
+        for cc in (True, False):
+            ref_snapshot(payload["file"], cc)
         hist = tuple((o[0], list(o[1]), dict(o[2])) for o in payload["history"])
         return _Bound(payload["file"])(hist, True)["fails"]
     raise ValueError(kind)
@@ -322,6 +336,8 @@ def run(ctx):
     # Part B
     files = range(len(FILES)) if ctx.thorough else range(4)
     for fi in files:
+        for cc in (True, False):
+            ref_snapshot(fi, cc)   # in the parent, before any history process is forked
         small = fi in (1, 2)
         forced = (3 if small else 2) if ctx.thorough else 2
         depth = (5 if small else 4) if ctx.thorough else 3
